@@ -60,6 +60,11 @@ MUTANTS = [
      "(finish (enqueue { conn' with parsed := [] } r) [], [], none)", "(finish (enqueue { conn' with parsed := [] } r) conn'.parsed, [], none)", ["C10", "C07"]),
     ("kill-ignored-without-switch", "hand mutant: kill event treated as no-op", "MicroHttp/Server.lean",
      "if s.hasKill then (s, [], [], some .shutdown) else (s, [], [], some (.unknownFd 0))", "if s.hasKill then (s, [], [], none) else (s, [], [], some (.unknownFd 0))", ["C18"]),
+    ("server-write-releases-staging", "seeded C12-idle-server-connection-releases-staging-under-partial-request-line (round 19)", "MicroHttp/Server.lean",
+     "| .ok => ({ c with conn := conn', state := if pendingWrite conn' then c.state else .awaitingIn }, bytes)",
+     "| .ok => ({ c with conn := (if !pendingWrite conn' && c.inflight = 0 && conn'.pending.isNone then { conn' with files := [], bodyVec := [] } else conn'), state := if pendingWrite conn' then c.state else .awaitingIn }, bytes)", ["C12"]),
+    ("router-404-takes-request-version", "seeded C17-http10-downgrade (round 19), the 404 half", "MicroHttp/Router.lean",
+     "| none => Response.new .http11 .notFound", "| none => Response.new req.line.version .notFound", ["C17"]),
     ("expect-overwritten", "seeded C13-later-expect-clears-flag", "MicroHttp/Headers.lean",
      "/- \"100-continue\" -/ then .ok { h with expect := true }", "/- \"100-continue\" -/ then .ok { h with expect := true } else if true then .ok { h with expect := false }", ["C15"]),
     ("duplicate-route-overwrites", "seeded C17-duplicate-route-overwrites", "MicroHttp/Router.lean",
